@@ -91,7 +91,7 @@ impl Scenario for C01 {
     "c01.pipelines"
   }
   fn components(&self) -> (&'static [&'static str], &'static [&'static str]) {
-    (&["whole operator catalogue through box_it (ast.rs): ~50 unary, 8 binary, merge_all/flatten, group_by, subjects, interval/timer sources"], &["executor, timer, clock (sim)"])
+    (&["whole operator catalogue through box_it (ast.rs): ~60 unary, 8 binary, merge_all/flatten, group_by, defer, subjects, interval(_at)/timer(_at)/from_future(_result)/from_stream(_result)/of_*/repeat/never sources"], &["executor, timer, clock (sim)"])
   }
   fn generate(&self, rng: &mut Rng, tier: Tier) -> Value {
     serde_json::to_value(gen_case(rng, tier, 1, (0, 1), vec![])).unwrap()
